@@ -22,11 +22,20 @@ type vLedger struct {
 	bad      bool // release of something not live (double release / foreign object)
 	shared   bool // a provider handed out an object that is still live
 	trap     *vTrap
+	yield    bool // interleaved mode: every provider call is a point where the scheduler may switch threads
+}
+
+func (l *vLedger) point() {
+	if l.yield {
+		verifYield()
+	}
 }
 
 func vNewLedger(inner CompressorProvider) *vLedger { return &vLedger{inner: inner, trap: &vTrap{}} }
 
 func (l *vLedger) take(o interface{}) {
+	verifAtomicBegin()
+	defer verifAtomicEnd()
 	for _, x := range l.live {
 		if x == o {
 			l.shared = true
@@ -37,6 +46,8 @@ func (l *vLedger) take(o interface{}) {
 }
 
 func (l *vLedger) give(o interface{}) {
+	verifAtomicBegin()
+	defer verifAtomicEnd()
 	l.released++
 	for i, x := range l.live {
 		if x == o {
@@ -47,16 +58,33 @@ func (l *vLedger) give(o interface{}) {
 	l.bad = true
 }
 
-func (l *vLedger) AcquireGzipWriter() *gzip.Writer { w := l.inner.AcquireGzipWriter(); l.take(w); return w }
+func (l *vLedger) AcquireGzipWriter() *gzip.Writer {
+	l.point()
+	w := l.inner.AcquireGzipWriter()
+	l.take(w)
+	return w
+}
 func (l *vLedger) ReleaseGzipWriter(w *gzip.Writer) {
+	l.point()
 	l.give(w)
 	w.Reset(l.trap) // any later use of the released object lands in the trap
 	l.inner.ReleaseGzipWriter(w)
 }
-func (l *vLedger) AcquireGzipReader() *gzip.Reader  { r := l.inner.AcquireGzipReader(); l.take(r); return r }
-func (l *vLedger) ReleaseGzipReader(r *gzip.Reader) { l.give(r); l.inner.ReleaseGzipReader(r) }
-func (l *vLedger) AcquireZlibWriter() *zlib.Writer  { w := l.inner.AcquireZlibWriter(); l.take(w); return w }
+func (l *vLedger) AcquireGzipReader() *gzip.Reader {
+	l.point()
+	r := l.inner.AcquireGzipReader()
+	l.take(r)
+	return r
+}
+func (l *vLedger) ReleaseGzipReader(r *gzip.Reader) { l.point(); l.give(r); l.inner.ReleaseGzipReader(r) }
+func (l *vLedger) AcquireZlibWriter() *zlib.Writer {
+	l.point()
+	w := l.inner.AcquireZlibWriter()
+	l.take(w)
+	return w
+}
 func (l *vLedger) ReleaseZlibWriter(w *zlib.Writer) {
+	l.point()
 	l.give(w)
 	w.Reset(l.trap)
 	l.inner.ReleaseZlibWriter(w)
